@@ -176,7 +176,7 @@ def run_case(spec):
     from vf.drive import session
     r = session.run(spec, obs='off')
     vios, stats = check_run(spec, r)
-    if r['error'] and r['error']['type'] not in ('InsufficientMargin', 'InsufficientBalance', 'InvalidStrategy', 'OrderNotAllowed'):
+    if r['error'] and r['error']['type'] not in ('InsufficientMargin', 'InsufficientBalance', 'InvalidStrategy', 'OrderNotAllowed', 'Watchdog'):
         vios.append((f"C02:session-raised-{r['error']['type']}", r['error']['msg'][:300] + r['error']['tb'][-300:]))
     return vios, stats, r
 
